@@ -164,7 +164,13 @@ impl AmemWorld {
                 if matches!(&self.lock, Some((t, _)) if *t == kv.n("t")) && !self.weak.contains_key(&kv.n("new")) {
                     let (_, g) = self.lock.take().unwrap();
                     let id = kv.n("new");
+                    let _ = vm_memory::verif_hooks::replace_log_take();
                     g.replace(make_map(id));
+                    // hook H4: when the new map was stored the update mutex must still have been held (publish, then unlock)
+                    let log = vm_memory::verif_hooks::replace_log_take();
+                    if log != vec![true] {
+                        rec.fail("C11", "replace/new-map-stored-without-holding-the-update-lock", &format!("{} h4={:?}", line, log));
+                    }
                     self.join_probes();
                     let a = self.gm.unwrap().memory().into_inner();
                     self.weak.insert(id, Arc::downgrade(&a));
